@@ -1120,7 +1120,7 @@ func Prop() *core.Prop {
 		},
 		Cases: func(tier string) int {
 			if tier == "thorough" {
-				return 1200000
+				return 6000000
 			}
 			return 30000
 		},
